@@ -13,6 +13,7 @@ import ArcSwapModel.Tie.AsRawMutPtr
 import ArcSwapModel.Tie.AsRawConstPtr
 import ArcSwapModel.Tie.DebtPayAll
 import ArcSwapModel.Tie.Sites
+import ArcSwapModel.Inv.CasCur
 
 /-!
 # C05 — compare_and_swap replaces iff the stored pointer equals `current`
@@ -196,5 +197,31 @@ theorem C05_iff (cfg : Cfg) (c cur new : Nat) (adv : List (Shared × Bool)) (l :
   rcases hk with ⟨h1, h2, h3, h4⟩ | ⟨h1, h2⟩
   · exact ⟨⟨fun _ => h1, fun _ => h2⟩, by omega, fun _ => ⟨h3, h4⟩, fun hne => absurd h2 hne⟩
   · exact ⟨⟨fun he => absurd he h2, fun hw => by omega⟩, by omega, fun hw => by omega, fun _ => h1⟩
+
+/-- **the comparison is a comparison of objects (partial)**: what `current` denotes — given as a
+    handle — is counted and alive in every state of the call, so its address is not re-allocated
+    between the caller's look at it and the exchange (`C06_counted_object_keeps_identity`): the
+    pointer found equal at the exchange is the object `current` denoted.  Along every execution
+    that satisfies the ledger's assumptions and has raised no fault. -/
+theorem C05_current_handle_alive_during_call_partial (K N T : Nat) (hK : 0 < K) (cfg : Cfg)
+    (progs : Nat → List (String × Op)) (sched : List (Nat × Bool))
+    (he : EnvRun0 K N T (State.initial cfg progs) sched)
+    (hf : (run (State.initial cfg progs) sched).sh.fault = none)
+    (t c hc : Nat) (keep : Option Guard) (curPtr new g : Nat) (cp : CP) (hp : curPtr ≠ 0)
+    (hop : ((run (State.initial cfg progs) sched).th t).op = .cas c (.h hc) keep curPtr new g cp) :
+    1 ≤ ((run (State.initial cfg progs) sched).sh.heap curPtr).cnt ∧
+      ((run (State.initial cfg progs) sched).sh.heap curPtr).live = true :=
+  cas_current_handle_counted K N T hK cfg progs sched he hf t c hc keep curPtr new g cp hp hop
+
+/-- the same for `current` given as a guard (borrowed or not, paid or not) -/
+theorem C05_current_guard_alive_during_call_partial (K N T : Nat) (hK : 0 < K) (cfg : Cfg)
+    (progs : Nat → List (String × Op)) (sched : List (Nat × Bool))
+    (he : EnvRun0 K N T (State.initial cfg progs) sched)
+    (hf : (run (State.initial cfg progs) sched).sh.fault = none)
+    (t c gc : Nat) (cg : Guard) (new g : Nat) (cp : CP) (hp : cg.ptr ≠ 0)
+    (hop : ((run (State.initial cfg progs) sched).th t).op = .cas c (.g gc) (some cg) cg.ptr new g cp) :
+    1 ≤ ((run (State.initial cfg progs) sched).sh.heap cg.ptr).cnt ∧
+      ((run (State.initial cfg progs) sched).sh.heap cg.ptr).live = true :=
+  cas_current_guard_counted K N T hK cfg progs sched he hf t c gc cg new g cp hp hop
 
 end C05
